@@ -117,6 +117,44 @@ pub fn run_case(c: &Sexp) -> Sexp {
             });
             Sexp::tag("obs", vec![schema_to_sexp(&schema), dec])
         }
+        // (rabin #bytes) -> (ok #digest)
+        "rabin" => {
+            use apache_avro::rabin::Rabin;
+            use md5::Digest;
+            let b = a.first().and_then(|x| x.as_hex()).unwrap_or(&[]);
+            // fed in two pieces to exercise the incremental update
+            let mut h = Rabin::new();
+            let mid = b.len() / 2;
+            h.update(&b[..mid]);
+            h.update(&b[mid..]);
+            let d = h.finalize();
+            ok(vec![Sexp::hex(&d[..])])
+        }
+        // (fingerprint #schema-json) -> (ok #pcf #rabin #md5 #sha256 #so-header)
+        "fingerprint" => {
+            use apache_avro::headers::{HeaderBuilder, RabinFingerprintHeader};
+            use apache_avro::rabin::Rabin;
+            let schema = match parse_schema(&a[0]) {
+                Ok(s) => s,
+                Err(e) => return e,
+            };
+            guarded(|| {
+                let pcf = match schema.canonical_form() {
+                    c => c,
+                };
+                let r = schema.fingerprint::<Rabin>();
+                let m = schema.fingerprint::<md5::Md5>();
+                let s2 = schema.fingerprint::<sha2::Sha256>();
+                let hdr = RabinFingerprintHeader::from_schema(&schema).build_header();
+                ok(vec![
+                    Sexp::hex(pcf.as_bytes()),
+                    Sexp::hex(&r.bytes),
+                    Sexp::hex(&m.bytes),
+                    Sexp::hex(&s2.bytes),
+                    Sexp::hex(&hdr),
+                ])
+            })
+        }
         "sizes" => Sexp::tag(
             "sizes",
             vec![
